@@ -1,4 +1,4 @@
-use proc_macro2::{Span, TokenStream, TokenTree};
+use proc_macro2::{Delimiter, Span, TokenStream, TokenTree};
 use quote::quote;
 use std::borrow::Cow;
 use syn::spanned::Spanned;
@@ -396,12 +396,25 @@ impl Parser {
         };
 
         let body = match tokens.next() {
-            Some(TokenTree::Group(group)) => group.stream(),
             Some(first) => {
-                let mut body = TokenStream::from(first);
+                let mut rest = tokens.peekable();
 
-                body.extend(tokens);
-                body
+                match first {
+                    // `|lex| { ... }`: the block is the whole body. A leading group that is
+                    // followed by more tokens (`|lex| (a) + 1`, `|lex| { a }.b()`) or that is
+                    // not a block (`|lex| (a, b)`, `|lex| [a, b]`) is part of the expression.
+                    TokenTree::Group(group)
+                        if group.delimiter() == Delimiter::Brace && rest.peek().is_none() =>
+                    {
+                        group.stream()
+                    }
+                    first => {
+                        let mut body = TokenStream::from(first);
+
+                        body.extend(rest);
+                        body
+                    }
+                }
             }
             None => {
                 self.err("Callback missing a body", span);
